@@ -241,6 +241,7 @@ func (c *FCtx) run(alias [2]string) {
 					f.results = append(f.results, c.readPlace(f.st, Place{Cell: f.st.vars[r]}))
 				}
 				f.pos = c.eng.pos(fi.Decl.Body) + "(end)"
+				f.retPos = fi.Decl.Body.Rbrace
 			}
 			nret++
 			c.checkReturn(f)
@@ -283,6 +284,18 @@ func (c *FCtx) checkReturn(f Flow) {
 			continue
 		}
 		c.oblige(f.st, "ensures", fmt.Sprintf("ensures[%d] %s @return %s", k+1, en.Src, lineOf(f.pos)), env.evalBool(en.E), f.pos)
+	}
+	if len(con.Exits) > 0 && f.retPos.IsValid() {
+		// internal postconditions may mention the locals in scope at this return statement
+		benv := c.bodyEnv(f.st, f.retPos)
+		xenv := *env
+		xenv.lookup = benv.lookup
+		for k, en := range con.Exits {
+			if !en.visible(c.prop) {
+				continue
+			}
+			c.oblige(f.st, "exit", fmt.Sprintf("exit[%d] %s @return %s", k+1, en.Src, lineOf(f.pos)), xenv.evalBool(en.E), f.pos)
+		}
 	}
 	// declared refusals are complete: on a normal return no `when` condition held at entry
 	for _, pc := range con.Panics {
